@@ -1,6 +1,7 @@
 """C16 — slice / mapx / pair helpers: proof layer + differential correspondence against
 /repo/slice, /repo/internal/slice, /repo/mapx/map.go, /repo/tuple/pair/pair.go."""
 import itertools
+import os
 import random
 import re
 
@@ -164,6 +165,95 @@ def random_cases(c, per):
     return out
 
 
+LONG_LENGTHS = list(range(9, 41)) + [63, 64, 65, 66, 127, 128, 129, 130]
+AGG2 = ["MaxI8", "MinI8", "SumI8", "MaxU8", "MinU8", "SumU8", "MaxF64", "MinF64", "NewPair", "PairSplit", "PairString"]
+
+
+def long_cases(c):
+    """LONG inputs (lengths 9..40, 63..66, 127..130, and 1000 for a few functions) with many duplicates, so that result
+    sizes cross 16 / 32 / 64: every function whose Go code pre-allocates or appends in a loop"""
+    r = random.Random(c.seed + 7)
+    g = Gen(r)
+    out = []
+    for L in LONG_LENGTHS:
+        k = r.choice([2, 3, 5, L, 2 * L])                # few distinct values (duplicates) or mostly distinct
+        alpha = list(range(1, k + 1))
+        a = [r.choice(alpha) for _ in range(L)]
+        b = [r.choice(alpha + [x + k // 2 for x in alpha]) for _ in range(r.choice([L, L // 2, L + 3]))]
+        x = r.choice(a)
+        ty = g.ty
+        for f in SET2:
+            out.append("%s %s %s %s" % (ty(), f, sl(a), sl(b)))
+        for f in FUNC2:
+            out.append("%s %s %s %s %s" % (ty(), f, r.choice(["eq", "mod3"]), sl(a), sl(b)))
+        out.append("%s IndexAll %s %d" % (ty(), sl(a), x))
+        out.append("%s Index %s %d" % (ty(), sl(a), x))
+        out.append("%s LastIndex %s %d" % (ty(), sl(a), x))
+        for p in ("true", r.choice(["even", "odd", "lt:%d" % (k // 2 + 1), "eq:%d" % x])):
+            out.append("%s IndexAllFunc %s %s" % (ty(), sl(a), p))
+            out.append("%s FindAll %s %s" % (ty(), sl(a), p))
+            out.append("%s Find %s %s" % (ty(), sl(a), p))
+            out.append("%s FilterMap %s idxadd %s" % (ty(), sl(a), p))
+            out.append("%s FilterDelete %s %s" % (ty(), sl(a), r.choice([p, "idxeven", "false"])))
+        out.append("%s Map %s %s" % (ty(), sl(a), g.mapf()))
+        out.append("%s ToMap %s %s" % (ty(), sl(a), r.choice(["add:1", "rem3", "mul:2"])))
+        out.append("%s ToMapV %s %s idxadd" % (ty(), sl(a), r.choice(["add:1", "rem3"])))
+        out.append("%s Reverse %s" % (ty(), sl(a)))
+        out.append("%s ReverseSelf %s" % (ty(), sl(a)))
+        for i in (0, L // 2, L - 1, L):
+            out.append("%s Delete %s %d" % (ty(), sl(a), i))
+            out.append("%s Add %d %s 9 %d" % (ty(), r.randint(0, 1), sl(a), i))
+        for f in AGG:
+            out.append("i%s %s %s" % (r.choice(LAYOUTS), f, sl(a)))
+        ps = [(r.choice(alpha + list(range(100, 100 + L))), r.randint(-9, 9)) for _ in range(L)]
+        for f in ["Keys", "Values", "KeysValues", "SplitPairs", "FlattenPairs"]:
+            out.append("%s %s %s" % (ty(), f, pl(ps)))
+        ks, vs = [p[0] for p in ps], [p[1] for p in ps]
+        out.append("%s MapxToMap %s %s" % (ty(), sl(ks), sl(vs)))
+        out.append("%s NewPairs %s %s" % (ty(), sl(ks), sl(vs)))
+        out.append("%s NewPairs %s %s" % (ty(), sl(ks), sl(vs[:-1])))
+        out.append("%s PackPairs %s" % (ty(), fl([x for p in ps for x in p])))
+    a = [r.randint(0, 1999) for _ in range(1000)]
+    b = [r.randint(1000, 2999) for _ in range(1000)]
+    for line in ["IndexAllFunc %s even", "IndexAllFunc %s true", "FindAll %s even", "FilterMap %s idxadd odd", "Map %s add:1",
+                 "Reverse %s", "ReverseSelf %s", "FilterDelete %s even", "Sum %s", "Max %s", "Min %s", "Delete %s 500", "Add 0 %s 9 500"]:
+        out.append("i " + line % sl(a))
+    for f in ("UnionSet", "IntersectSet", "DiffSet", "SymmetricDiffSet"):
+        out.append("s %s %s %s" % (f, sl(a), sl(b)))
+    return out
+
+
+def f64_item(x):
+    import struct
+    bits = struct.unpack("<Q", struct.pack("<d", x))[0]
+    mag = bits & ((1 << 63) - 1)
+    key = -mag if bits >> 63 else mag                     # IEEE order of non-NaN values; -0.0 and +0.0 share key 0
+    return (key, bits - (1 << 64) if bits >> 63 else bits)
+
+
+def agg2_cases(c):
+    """Max / Min / Sum at int8 and uint8 (extremes; Sum wraps as the Go code does), Max / Min at float64 without NaN
+    (as (order key, bit pattern), incl. -0.0 and +-Inf), and NewPair / Split / String of tuple/pair"""
+    r = random.Random(c.seed + 11)
+    out = []
+    inf = float("inf")
+    fvals = [0.0, -0.0, 1.5, -1.5, inf, -inf, 1e308, -1e308, 5e-324, -5e-324, 2.0, 3.25, 1.0, -1.0]
+    for _ in range(60):
+        for lo, hi, sfx in ((-128, 127, "I8"), (0, 255, "U8")):
+            n = r.choice([0, 1, 2, 3, 5, 9])
+            a = None if r.random() < 0.1 else [r.choice([lo, hi, lo + 1, hi - 1, 0, 1, r.randint(lo, hi)]) for _ in range(n)]
+            for f in ("Max", "Min", "Sum"):
+                out.append("i %s%s %s" % (f, sfx, sl(a)))
+        fs = None if r.random() < 0.1 else [r.choice(fvals) for _ in range(r.choice([0, 1, 2, 3, 6]))]
+        item = pl(None if fs is None else [f64_item(x) for x in fs])
+        out.append("i MaxF64 %s" % item)
+        out.append("i MinF64 %s" % item)
+        k, v = r.choice([0, 1, -1, 7, -12, 1 << 62, -(1 << 63), r.randint(-999, 999)]), r.randint(-50, 50)
+        for f in ("NewPair", "PairSplit", "PairString"):
+            out.append("i %s %d %d" % (f, k, v))
+    return out
+
+
 def all_slices(alpha, maxlen):
     res = [None]
     for n in range(maxlen + 1):
@@ -255,6 +345,8 @@ def gen_cases(c):
     full = c.tier == "thorough"
     cases = random_cases(c, 4000 if full else 330)
     cases += exhaustive_cases(4, 5) if full else exhaustive_cases(2, 3)
+    cases += long_cases(c)
+    cases += agg2_cases(c)
     cases += MALFORMED
     return cases
 
@@ -280,7 +372,7 @@ def n_args(fn):
     """how many trailing fields of the observable line are `argument afterwards` fields"""
     if fn in SET2 or fn in FUNC2 or fn in ("MapxToMap", "NewPairs"):
         return 2
-    if fn in ("Keys", "Values", "KeysValues"):
+    if fn in ("Keys", "Values", "KeysValues", "MaxF64", "MinF64", "NewPair", "PairSplit", "PairString"):
         return 0
     return 1
 
@@ -445,7 +537,7 @@ def main(tier):
     c = Check("C16", tier)
     c.proof_layer()
     c.ensure_modelrun()
-    binary, log = c.build_harness()
+    binary, log = (os.environ["C16_HARNESS"], "") if "C16_HARNESS" in os.environ else c.build_harness()   # env: development aid only
     if binary is None:
         c.report("C16:build", "harness does not build against /repo", {"kind": "build", "log": log[-3000:]}, found_input=False)
         finish(c)
@@ -510,7 +602,8 @@ def main(tier):
     c.cov["memory_observables_compared"] = mem_compared
     # cross-check the OCaml extraction against vm_compute inside Coq on a sample
     r = random.Random(c.seed + 1)
-    good = [i for i, cs in enumerate(cases) if i < len(model) and model[i] != "badcase"]
+    good = [i for i, cs in enumerate(cases) if i < len(model) and model[i] != "badcase"
+            and (cs.split() + ["", ""])[1] not in AGG2 and len(cs) < 600]
     idx = sorted(r.sample(good, min(300, len(good))))
     its = []
     for i in idx:
@@ -536,13 +629,17 @@ def finish(c):
              "slices over the alphabet {1,2,4} (and nil) up to length 2 (quick) / 4 (thorough) for the 12 binary set functions and all "
              "slices up to length 3 (quick) / 5 (thorough) for the unary ones with every parameter; every argument slice is printed "
              "again after the call (pure functions must leave it unchanged, in-place ones must show the modelled contents); results "
-             "of Go map iteration are compared as sorted collections; about half of the calls place every slice argument at an offset of a "
+             "of Go map iteration are compared as sorted collections; a stream of LONG inputs (lengths 9..40, 63..66, 127..130 for every "
+             "function that pre-allocates or appends in a loop, 1000 for a few; many duplicates, result sizes cross 16/32/64); Max/Min/Sum "
+             "also at int8 / uint8 extremes (Sum wraps as the code does) and Max/Min at float64 without NaN (order key + bit pattern, -0.0, +-Inf); "
+             "NewPair / Pair.Split / Pair.String; about half of the calls place every slice argument at an offset of a "
              "larger backing array with spare capacity (sentinel cells) and compare the memory observables predicted by the extracted "
              "header-level model SliceMemModel2.mem_run: result nil / empty / inside which argument array at which cell with which len and cap / "
              "in a new array, and every cell of every argument array after the call; non-trivial = some argument is non-empty; distinct by md5 of the case text",
         assumptions=["Go's append writes into the argument's backing array iff cap > len (Add's effect on the argument is modelled for both cases)",
                      "Go map iteration visits every key exactly once in an unspecified order (model: insertion order; compared as sets)",
                      "capacities of results in NEW arrays are not compared (growth policy of append is the runtime's); result identity is by address range of the argument arrays",
+                     "float64 Sum is not modelled (needs IEEE rounding); NaN is excluded (Max/Min are order-dependent garbage on NaN by design of `>`)",
                      "errors are compared by class (index-out-of-range vs other), never by message"],
         trusted_base=["Coq 8.16.1 kernel + vm_compute (no native_compute)", "no axioms (Print Assumptions: closed under the global context)",
                       "extraction: ExtrOcamlBasic only, no Extract Constant; cross-checked against vm_compute on 300 cases per run",
